@@ -156,6 +156,8 @@ def main(tier):
     provenance.check_kwidth(rep, {'mem_zero'}, 'MEM', 4)
     check_noload(rep)
     check_combine(rep)
+    import bounds
+    bounds.check(rep, {'mem_zero'}, 'MEM', 2)
     return rep.finish()
 
 
